@@ -130,6 +130,7 @@ func c15(r *Report) {
 			}
 		}
 
+		snapshotBodyAfterCheckRule(r)
 		// a body is only ever replaced by something built from itself: a wrapper around the old
 		// body, or a reader over the bytes read from it - never by a constant such as http.NoBody
 		// (the test that is meant to spot "no body" also matches a body of unknown length)
@@ -297,6 +298,22 @@ func c15(r *Report) {
 				}
 				data := resultOf(c, 0)
 				tests := errTests(c)
+				// an inlined helper tests the error and its caller tests the helper's result again: the
+				// last test (the one every other dominates) is the one that decides
+				if len(tests) > 1 {
+					for _, t := range tests {
+						last := true
+						for _, u := range tests {
+							if u.If != t.If && !u.If.Block().Dominates(t.If.Block()) {
+								last = false
+							}
+						}
+						if last {
+							tests = []nilTest{t}
+							break
+						}
+					}
+				}
 				if len(tests) != 1 || data == nil {
 					r.Fail("path", key, "the error of draining the body is not tested exactly once", nil, c.Pos())
 					continue
@@ -353,6 +370,12 @@ func c15(r *Report) {
 		// (gzip's header): a new way to fail - a sniffing read that hits the end of an empty body -
 		// turns a message the proxy forwards untouched into one with a Warning header
 		errorsReturnedRule(r, r.W.Fn("messageview", "MessageView.BodyReader"), true)
+		// the HAR logger likewise fails an exchange only where it does on the pinned tree (every error
+		// it returns becomes a Warning header on the forwarded message and stops the modifiers
+		// after it in a group)
+		for _, n := range []string{"NewRequest", "NewResponse", "postData", "Logger.RecordRequest", "Logger.RecordResponse", "Logger.ModifyRequest", "Logger.ModifyResponse"} {
+			errorsReturnedRule(r, r.W.Fn("har", n), true)
+		}
 
 		for _, pkg := range loggerPkgs {
 			bad := 0
@@ -697,3 +720,45 @@ func c15(r *Report) {
 
 var _ = types.Universe
 var _ = strings.TrimSpace
+
+// snapshotBodyAfterCheckRule: a snapshot puts the bytes it read back as the
+// message's body only after the read succeeded: the store to Body lies behind
+// the nil edge of ReadAll's error. Put back before the check, a body the
+// origin cut short becomes a complete-looking one, and the proxy forwards a
+// shortened message as if it were whole. Shared by C15.R1 and C03.R2.
+func snapshotBodyAfterCheckRule(r *Report) {
+	w := r.W
+	n := 0
+	for _, f := range w.Funcs("messageview", "har", "martianlog", "marbl") {
+		for _, c := range plainCalls(f, "io/ioutil.ReadAll", "io.ReadAll") {
+			if !anyIn(w.backSlice(c.Call.Args[0], flowOpt{}), func(v ssa.Value) bool { return msgFieldAddr(v, "Body") != nil }) {
+				continue
+			}
+			tests := errTests(c)
+			for _, in := range instrs(f) {
+				st, isSt := in.(*ssa.Store)
+				if !isSt || msgFieldAddr(st.Addr, "Body") == nil {
+					continue
+				}
+				if !anyIn(w.backSlice(st.Val, flowOpt{Through: map[string]bool{"io/ioutil.NopCloser": true, "io.NopCloser": true, "bytes.NewReader": true, "bytes.NewBuffer": true}, CallArg: true}), func(v ssa.Value) bool { return isExtractOfCallValue(v, c) }) {
+					continue
+				}
+				n++
+				ok := false
+				for _, e := range tests {
+					if blockDominates(e.Nil, st.Block()) {
+						ok = true
+					}
+				}
+				r.Touch(f)
+				r.Decide("path", fmt.Sprintf("%s: the bytes read are put back as the body only after the read succeeded", fnName(f)), ok, "the Body store lies behind the nil edge of ReadAll's error", "the body is replaced by what was read before the read's error is looked at: a response the origin cut short is handed on as a complete, shorter body (with its framing re-computed), and the client cannot tell that it is incomplete", st.Pos())
+			}
+		}
+	}
+	r.Decide("path", "snapshots put the body back", n >= 1, fmt.Sprintf("%d body replacements fed by ReadAll", n), "fewer replacements than on the pinned tree", token.NoPos)
+}
+
+func isExtractOfCallValue(v ssa.Value, c *ssa.Call) bool {
+	ex, ok := v.(*ssa.Extract)
+	return ok && ex.Tuple == ssa.Value(c)
+}
